@@ -114,6 +114,7 @@ func c10HardCert(c *Ctx, m *shimModel) {
 			return (strings.Contains(x, listed) && strings.Contains(x, "Marshal") && strings.Contains(y, certKey) && strings.Contains(y, "Marshal")) ||
 				(strings.Contains(y, listed) && strings.Contains(y, "Marshal") && strings.Contains(x, certKey) && strings.Contains(x, "Marshal"))
 		})
+		okEq = okEq || f.Any(b, func(l Lit) bool { return l.Pol && c10ContainsKey(w, fn, l.V, extractOf(list, 0), certV) })
 		c.Check(okEq, "R1.hardcert", "AddHardCert|certificate key is held by the underlying agent", w.Pos(mu.Pos()), "must-fact bytes.Equal(listedKey.Marshal(), cert.Key.Marshal())", "a hardware certificate can be accepted without the must-fact that its public key equals a key the underlying agent lists now")
 		// key and value of the insert
 		c.Check(strings.Contains(w.Expr(mu.Key), "Marshal>(p1)"), "R1.hardcert", "AddHardCert|table keyed by the offered blob's hash", w.Pos(mu.Pos()), "hash(key.Marshal())", "the table key is not the hash of the offered key")
@@ -163,6 +164,7 @@ func c10HardCert(c *Ctx, m *shimModel) {
 					la := lenArg(bin.Y)
 					return la != nil && w.SameValue(fn, la, extractOf(list, 0)) && isForwardRangeIndex(bin.X)
 				})
+				done = done || f.Any(b, func(l Lit) bool { return !l.Pol && c10ContainsKey(w, fn, l.V, extractOf(list, 0), certV) })
 				c.Check(done, "R1.hardcert", "AddHardCert|key-not-found only after the whole listing was scanned", w.Pos(r.Pos()), "range over the listing exhausted", "key-not-found can be returned before every listed key was compared")
 			}
 		}
@@ -339,7 +341,7 @@ func framingRules(c *Ctx, rule string, pkgs []string) {
 	w := c.w
 	bounds := map[string]int64{}
 	for _, pkg := range pkgs {
-		rd, wr := framingFns(w, pkg)
+		rd, wr := framingBodies(w, pkg)
 		if rd == nil || wr == nil {
 			c.Unresolved(rule, "framed read/write helpers of "+pkg)
 			continue
@@ -438,8 +440,8 @@ func framingRules(c *Ctx, rule string, pkgs []string) {
 		if pkgs[0] == yubiPkg {
 			other = shimPkg
 		}
-		ord, _ := framingFns(w, other)
-		mine, _ := framingFns(w, pkgs[0])
+		ord, _ := framingBodies(w, other)
+		mine, _ := framingBodies(w, pkgs[0])
 		ba, bb := frameBound(w, mine), frameBound(w, ord)
 		c.Check(ba >= 0 && ba == bb, rule, "read|both copies of the framing use the same bound", "-", "equal bounds", "the two framed readers disagree on the maximum frame size: "+itoa(int(ba))+" vs "+itoa(int(bb)))
 	}
@@ -746,4 +748,52 @@ func errHandedBack(w *World, ev ssa.Value) *ssa.Function {
 		}
 	}
 	return h
+}
+
+// c10ContainsKey: v is slices.ContainsFunc(<the listing>, func(k) bool { return bytes.Equal(k.Marshal(), cert.Key.Marshal()) })
+// (either argument order) - "some listed key has the certificate's public key", decided over the whole listing.
+func c10ContainsKey(w *World, fn *ssa.Function, v ssa.Value, listing, certV ssa.Value) bool {
+	cv, ok := throughCell(strip(v)).(*ssa.Call)
+	if !ok || !strings.HasPrefix(calleeName(cv), "slices.ContainsFunc") || len(cv.Call.Args) != 2 {
+		return false
+	}
+	if !w.SameValue(fn, cv.Call.Args[0], listing) {
+		return false
+	}
+	mc, ok := strip(cv.Call.Args[1]).(*ssa.MakeClosure)
+	if !ok {
+		return false
+	}
+	clo, _ := mc.Fn.(*ssa.Function)
+	if clo == nil || len(clo.Params) != 1 {
+		return false
+	}
+	rets := liveReturns(clo)
+	if len(rets) != 1 || len(rets[0].Results) != 1 {
+		return false
+	}
+	eq, ok := throughCell(strip(rets[0].Results[0])).(*ssa.Call)
+	if !ok || calleeName(eq) != "bytes.Equal" {
+		return false
+	}
+	isMarshalOf := func(a ssa.Value, want func(recv ssa.Value) bool) bool {
+		mcall, ok := throughCell(strip(a)).(*ssa.Call)
+		if !ok || !mcall.Call.IsInvoke() && mcall.Call.StaticCallee() == nil {
+			return false
+		}
+		name := ""
+		var recv ssa.Value
+		if mcall.Call.IsInvoke() {
+			name, recv = mcall.Call.Method.Name(), mcall.Call.Value
+		} else if len(mcall.Call.Args) > 0 {
+			name, recv = mcall.Call.StaticCallee().Name(), mcall.Call.Args[0]
+		}
+		return name == "Marshal" && recv != nil && want(recv)
+	}
+	isElem := func(recv ssa.Value) bool { return throughCell(strip(recv)) == ssa.Value(clo.Params[0]) }
+	isCertKey := func(recv ssa.Value) bool {
+		return strings.HasSuffix(w.Expr(recv), w.Expr(certV)+".Key")
+	}
+	a, b := eq.Call.Args[0], eq.Call.Args[1]
+	return (isMarshalOf(a, isElem) && isMarshalOf(b, isCertKey)) || (isMarshalOf(b, isElem) && isMarshalOf(a, isCertKey))
 }
